@@ -78,14 +78,14 @@ Newer(S, c1, c2) == /\ S.inst[c1] = S.inst[c2]
 IdlePc == [ph |-> "idle", k |-> "", c |-> "", idx |-> 0, todo |-> <<>>, res |-> ""]
 NoWrite == [op |-> "none", path |-> "", o |-> 0]
 NoLast == [s |-> 0, rk |-> "", rc |-> "", w |-> NoWrite, regc |-> "", stole |-> FALSE,
-           fsb |-> FALSE, await |-> {}, named |-> TRUE]
+           fsb |-> FALSE, await |-> {}, named |-> TRUE, guarded |-> TRUE]
 
 (* helper run (extension): kind kill | unreg, host it acts for, instance      *)
 (* (unreg), the calls still to make, whether nothing else happened since it   *)
 (* began, the node table then and what an undisturbed run removes             *)
 AdmSess == 900
 NoAdm == [ph |-> "idle", kind |-> "", h |-> "", a |-> "", todo |-> <<>>, clean |-> TRUE,
-          n0 |-> {}, k0 |-> {}]
+          n0 |-> {}, k0 |-> {}, seen |-> {}]   \* seen: paths whose last get showed data naming h
 
 InitSt(S) ==
   [nodes   |-> [p \in Range(S.ext.sp) |-> [d |-> "", o |-> AdmSess + IndexIn(S.hosts,
@@ -287,7 +287,7 @@ CallDo(S, st_, h, ord) ==
          ELSE IF st_.nodes[p].d # CurData(S, st_, h) THEN [s0 EXCEPT !.pc[h].ph = "set"]
          ELSE Registered(S, s0, h)
     [] pc.ph = "set" ->
-         IF ~ex THEN [s0 EXCEPT !.pc[h] = [@ EXCEPT !.ph = "end", !.res = "error"]]
+         IF ~ex THEN [s0 EXCEPT !.pc[h] = [@ EXCEPT !.ph = "end", !.res = "error:NoNodeError"]]
          ELSE Registered(S, [s0 EXCEPT !.nodes[p].d = CurData(S, st_, h),
                                        !.last.w = [op |-> "set", path |-> p, o |-> own]], h)
     [] pc.ph = "watch" ->
@@ -481,10 +481,13 @@ ACallDo(S, st_, ord) ==
          go((IF h \in DOMAIN S.ext.sp /\ S.ext.sp[h] \in DOMAIN st_.nodes
              THEN <<Item("ikids", S.ext.sp[h]), Item("del", S.ext.sp[h])>> ELSE <<>>) \o rest)
     [] it.t = "chk" ->
-         go((IF NamesHost(S, st_, h, it.p) THEN <<Item("del", it.p)>> ELSE <<>>) \o rest)
+         IF NamesHost(S, st_, h, it.p)
+         THEN [go(<<Item("del", it.p)>> \o rest) EXCEPT !.adm.seen = @ \cup {it.p}]
+         ELSE [go(rest) EXCEPT !.adm.seen = @ \ {it.p}]
     [] it.t = "ichk" ->
-         go((IF NamesHost(S, st_, h, it.p) THEN <<Item("ikids", it.p), Item("del", it.p)>> ELSE <<>>)
-            \o rest)
+         IF NamesHost(S, st_, h, it.p)
+         THEN [go(<<Item("ikids", it.p), Item("del", it.p)>> \o rest) EXCEPT !.adm.seen = @ \cup {it.p}]
+         ELSE [go(rest) EXCEPT !.adm.seen = @ \ {it.p}]
     [] it.t = "ikids" -> go(IF ex THEN rest ELSE Tail(rest))
     [] it.t = "del" ->
          IF ~ex THEN go(rest)
@@ -493,13 +496,15 @@ ACallDo(S, st_, ord) ==
                                  !.claimed = [h2 \in HostSet(S) |-> DropAll(@[h2], {it.p})],
                                  !.last.w = [op |-> "delete", path |-> it.p, o |-> st_.nodes[it.p].o],
                                  !.last.named = NamesHost(S, st_, h, it.p),
+                                 !.last.guarded = it.p \in adm.seen \/ it.p \notin AllPaths(S),
                                  !.last.await = IF ord = <<>> THEN {} ELSE {it.p}], ord)
 
 CanAEnd(st_) == st_.adm.ph = "run" /\ st_.adm.todo = <<>>
 AEndDo(st_) == [st_ EXCEPT !.adm = NoAdm, !.last = NoLast]
 
 (* anything else that happens while a helper runs disturbs it *)
-Dirty(st_) == IF st_.adm.ph = "idle" THEN st_ ELSE [st_ EXCEPT !.adm.clean = FALSE]
+Dirty(st_) == IF st_.adm.ph = "idle" THEN st_
+              ELSE [st_ EXCEPT !.adm.clean = FALSE, !.adm.n0 = {}, !.adm.k0 = {}]
 
 -----------------------------------------------------------------------------
 Scn == [hosts |-> Hosts, conts |-> Conts, inst |-> InstOf, paths |-> PathsOf,
@@ -596,7 +601,7 @@ NewerKept == ~st.last.stole
 
 (* sanity of the model itself: a request never finds its own node missing     *)
 (* (MaxKill = 0)                                                              *)
-NoError == \A h \in Range(Hosts) : st.pc[h].res # "error"
+NoError == \A h \in Range(Hosts) : st.pc[h].res # "error:NoNodeError"
 
 -----------------------------------------------------------------------------
 (* Extension (MaxKill > 0).  With helpers in the environment Ephemeral, Waits, *)
@@ -630,4 +635,11 @@ ExtAtomic ==
 (* with helpers around -- false when a node _safe_delete has just seen as its  *)
 (* own is killed and re-created by the other host before the delete.           *)
 ExtNamed == Helper /\ st.last.w.op = "delete" => st.last.named
+
+(* C17.noForeign for the helpers (they are code of presence.py too): a helper  *)
+(* deletes a presence node only after ITS OWN get of that node showed data     *)
+(* naming the host it acts for.  A delete that nevertheless hits a node of     *)
+(* another host is the window above; a delete without that evidence is the     *)
+(* property's violation (trace clause C17.noForeign on helper lines).          *)
+ExtGuarded == Helper /\ st.last.w.op = "delete" => st.last.guarded
 =============================================================================
